@@ -60,6 +60,22 @@ Definition denote_rec (r : rrec) : list byte := slice (l_bytes (r_obj r)) (r_fro
 Definition denote (d : data) : list byte :=
   match d with DLeaf l => l_bytes l | DComp _ _ _ recs => flat_map denote_rec recs end.
 
+(* ---------------------------------------------------------------- representation invariant (data.c:23-93) *)
+Definition M64 : Z := 18446744073709551616.
+(* a buffer's size fits in size_t; size 0 <-> the singleton *)
+Definition wf_leaf (l : leaf) : Prop := leaf_size l < M64 /\ (l_bytes l = [] <-> l_id l = EMPTY_ID).
+(* a record is non-empty and lies within its leaf *)
+Definition wf_rec (r : rrec) : Prop :=
+  wf_leaf (r_obj r) /\ 0 <= r_from r /\ 0 < r_len r /\ r_from r + r_len r <= leaf_size (r_obj r).
+Definition sum_len (rs : list rrec) : Z := fold_right (fun r a => r_len r + a) 0 rs.
+Definition wf (d : data) : Prop :=
+  match d with
+  | DLeaf l => wf_leaf l
+  | DComp id flat sz recs =>
+      id <> EMPTY_ID /\ recs <> [] /\ Forall wf_rec recs /\ sz = sum_len recs /\ sz < M64 /\
+      (flat = true -> (2 <= length recs)%nat)
+  end.
+
 (* ---------------------------------------------------------------- dispatch_data_create_concat (data.c:317-361) *)
 Definition concat (fresh : Z) (dd1 dd2 : data) : data :=
   if size dd1 =? 0 then dd2
@@ -100,7 +116,31 @@ Fixpoint set_last_len (ll : Z) (rs : list rrec) : list rrec :=
   | r :: t => r :: set_last_len ll t
   end.
 
-(* the function body; `self` is the recursive call on records[i].data_object (a leaf) *)
+(* the part after `// Subrange of a composite dispatch data object` (data.c:394-457); `self` is the recursive call on
+   records[i].data_object (a leaf); sz = dd->size *)
+Definition subrange_comp (self : Z -> leaf -> Z -> Z -> option data)
+    (fresh : Z) (sz : Z) (recs : list rrec) (offset len : Z) : option data :=
+  let to_the_end := u64 (offset + len) =? sz in
+  let '(rs, offset) := skip_records recs offset in
+  match rs with
+  | [] => None
+  | r :: rest =>
+      if u64 (offset + len) <=? r_len r
+      then self fresh (r_obj r) (u64 (r_from r + offset)) len
+      else
+        let cl := if to_the_end then Some (length rs, 0)
+                  else find_last rest 1%nat (u64 (len - u64 (r_len r - offset))) in
+        match cl with
+        | None => None
+        | Some (count, last_length) =>
+            let rs1 := firstn count rs in
+            let rs2 := upd_first offset rs1 in
+            let rs3 := if to_the_end then rs2 else set_last_len last_length rs2 in
+            Some (DComp fresh false len rs3)
+        end
+  end.
+
+(* the function body *)
 Definition subrange_body (self : Z -> leaf -> Z -> Z -> option data)
     (fresh : Z) (dd : data) (offset len : Z) : option data :=
   let sz := size dd in
@@ -110,26 +150,7 @@ Definition subrange_body (self : Z -> leaf -> Z -> Z -> option data)
   if negb clamp && (len =? sz) then Some dd else
   match dd with
   | DLeaf l => Some (DComp fresh false len [mkRec l offset len])
-  | DComp _ _ _ recs =>
-      let to_the_end := u64 (offset + len) =? sz in
-      let '(rs, offset) := skip_records recs offset in
-      match rs with
-      | [] => None
-      | r :: rest =>
-          if u64 (offset + len) <=? r_len r
-          then self fresh (r_obj r) (u64 (r_from r + offset)) len
-          else
-            let cl := if to_the_end then Some (length rs, 0)
-                      else find_last rest 1%nat (u64 (len - u64 (r_len r - offset))) in
-            match cl with
-            | None => None
-            | Some (count, last_length) =>
-                let rs1 := firstn count rs in
-                let rs2 := upd_first offset rs1 in
-                let rs3 := if to_the_end then rs2 else set_last_len last_length rs2 in
-                Some (DComp fresh false len rs3)
-            end
-      end
+  | DComp _ _ _ recs => subrange_comp self fresh sz recs offset len
   end.
 
 Definition subrange_leaf (fresh : Z) (l : leaf) (offset len : Z) : option data :=
@@ -242,6 +263,22 @@ Definition flatten_priv (dd : data) : data :=
   | _ => dd
   end.
 
+(* specification-side notions for dispatch_data_apply (used in the theorems only) *)
+(* consecutive non-empty regions starting at logical offset off *)
+Fixpoint tiles (off : Z) (gs : list region) : Prop :=
+  match gs with
+  | [] => True
+  | g :: t => g_off g = off /\ g_bytes g <> [] /\ tiles (off + Z.of_nat (length (g_bytes g))) t
+  end.
+(* the regions an applier gets to see: up to and including the first one at which it says stop *)
+Fixpoint take_until (f : region -> bool) (gs : list region) : list region :=
+  match gs with [] => [] | g :: t => if f g then g :: take_until f t else [g] end.
+Fixpoint rec_regions (off : Z) (recs : list rrec) : list region :=
+  match recs with
+  | [] => []
+  | r :: t => mkRegion (l_id (r_obj r)) off (denote_rec r) :: rec_regions (off + r_len r) t
+  end.
+
 (* ---------------------------------------------------------------- dispatch_data_copy_region (data.c:606-674) *)
 (* the record loop; `self` = recursive call on records[i].data_object; None = DISPATCH_INTERNAL_CRASH *)
 Fixpoint copy_walk (self : Z -> leaf -> Z -> Z -> Z -> Z -> option (data * Z)) (fresh : Z)
@@ -279,6 +316,19 @@ Definition copy_region_leaf (fresh : Z) (l : leaf) (from sz location off_acc : Z
 Definition copy_region (fresh : Z) (dd : data) (location : Z) : option (data * Z) :=
   if location >=? size dd then Some (empty, size dd)
   else copy_region_body copy_region_leaf fresh dd 0 (size dd) location 0.
+
+(* every object a client can obtain: any tree of create / concat / subrange / map / copy_region / flatten, of any
+   depth and fragmentation, with any offsets, lengths and locations in size_t *)
+Inductive built : data -> Prop :=
+| b_empty : built empty
+| b_leaf : forall id bytes, id <> EMPTY_ID -> bytes <> [] -> Z.of_nat (length bytes) < M64 -> built (DLeaf (mkLeaf id bytes))
+| b_concat : forall f a b, built a -> built b -> f <> EMPTY_ID -> size a + size b < M64 -> built (concat f a b)
+| b_subrange : forall f a off len d, built a -> f <> EMPTY_ID -> 0 <= off < M64 -> 0 <= len < M64 ->
+    subrange f a off len = Some d -> built d
+| b_map : forall f a d bs, built a -> f <> EMPTY_ID -> map_bytes f a = Some (d, bs) -> built d
+| b_copy_region : forall f a loc d off, built a -> f <> EMPTY_ID -> 0 <= loc < M64 ->
+    copy_region f a loc = Some (d, off) -> built d
+| b_flatten : forall a, built a -> built (flatten_priv a).
 
 (* ---------------------------------------------------------------- ownership: objects, reference counts, destructors *)
 (* One count per object (the external count: _dispatch_data_retain = dispatch_retain; the internal count stays 1
